@@ -27,6 +27,8 @@ def boot(sim, rounds=100):
 
 def run_steps(sim, case, extra_ops=None):
     cfg = case['cfg']
+    if extra_ops is None:
+        extra_ops = [('churn', 2)]
     table = gen.op_table(cfg.get('profile', 'mixed'), extra_ops)
     resolved = []
     if cfg.get('boot', True):
